@@ -13,7 +13,7 @@ Lemma step_fst sess me alt nd a res :
   match res with
   | Ok (nd', a', t') => (AInv sess (set_thr a' RFst t') /\ delta me RFst a nd nd' (set_thr a' RFst t')) /\ node_frame nd nd'
   | Blocked => True
-  | Panic site => cclosed (n_pcd nd) = true /\ site = "send on closed channel"%string
+  | Panic site => cclosed (n_pcd nd) = true /\ site = "send on closed channel"%string /\ at_pc a RFst FDo 5 = true
   end.
 Proof.
   intros Hinv H.
